@@ -567,13 +567,25 @@ static void dump_grid(REF_GRID ref_grid) {
   REF_CELL ref_cell;
   REF_INT node, group, cell, nodes[REF_CELL_MAX_SIZE_PER], i;
   char b[64], hb[32];
+  /* Between two ref_node_synchronize_globals every rank numbers the vertices it creates old_n_global, old_n_global+1, ...
+     on its own (ref_node_next_global): the same fresh id then names DIFFERENT vertices on different ranks until the next
+     synchronisation shifts rank r's fresh ids by the number of fresh ids of the ranks before it (ref_node_shift_unused /
+     shiftNew in the model).  A pass that ends without a synchronisation (ref_split_pass synchronises only when some edge
+     spans partitions) is dumped in that state; ids >= old_n_global are therefore printed with exactly that shift, so that
+     a dumped id names one vertex.  The header keeps old != new: the state is still reported as unsynchronised. */
+  long long fresh_me = (long long)(ref_node->new_n_global - ref_node->old_n_global), fresh_off = 0;
+  long long old_n = (long long)ref_node->old_n_global;
+  if (fresh_me < 0) fresh_me = 0;
+  MPI_Exscan(&fresh_me, &fresh_off, 1, MPI_LONG_LONG, MPI_SUM, MPI_COMM_WORLD);
+  if (0 == me) fresh_off = 0;
+#define DUMP_GLOB(g) ((long long)(g) >= old_n ? (long long)(g) + fresh_off : (long long)(g))
   r_reset();
   r_ll(ref_node->old_n_global);
   r_ll(ref_node->new_n_global);
   r_ll(ref_node_n_unused(ref_node));
   r_put("N");
   each_ref_node_valid_node(ref_node, node) {
-    snprintf(b, sizeof b, "%lld,%d", (long long)ref_node_global(ref_node, node), ref_node_part(ref_node, node));
+    snprintf(b, sizeof b, "%lld,%d", DUMP_GLOB(ref_node_global(ref_node, node)), ref_node_part(ref_node, node));
     r_put(b);
     for (i = 0; i < REF_NODE_REAL_PER; i++) {
       r_fmt_dbl(hb, ref_node_real(ref_node, i, node));
@@ -593,11 +605,12 @@ static void dump_grid(REF_GRID ref_grid) {
                ref_cell_last_node_is_an_id(ref_cell) ? nodes[ref_cell_node_per(ref_cell)] : 0);
       r_put(b);
       for (i = 0; i < ref_cell_node_per(ref_cell); i++) {
-        snprintf(b, sizeof b, ",%lld", (long long)ref_node_global(ref_node, nodes[i]));
+        snprintf(b, sizeof b, ",%lld", DUMP_GLOB(ref_node_global(ref_node, nodes[i])));
         r_raw(b);
       }
     }
   }
+#undef DUMP_GLOB
 }
 
 static void my_sync(const char *label, void *object) {
